@@ -3,6 +3,8 @@ package checks
 import (
 	"bytes"
 	"crypto/x509"
+	"crypto/x509/pkix"
+	"encoding/asn1"
 	"encoding/pem"
 	"fmt"
 	"os"
@@ -122,6 +124,26 @@ func c02Run(r *core.Run) {
 		cases = append(cases, c02Case{"not-yet-valid:intermediate-under-B|pool=A", qf2, pools["A"], world.MustReject, "the chain is under a foreign root (and its intermediate is not yet valid)"})
 		r.Probe("foreign_chain_not_yet_valid")
 	}
+	// 1e. the same self-consistent foreign chain with a legal but unusual feature on its leaf or intermediate
+	// that makes standard path validation stop early (before any path is built): whatever error that is,
+	// it must not stand in for the anchoring in the pool
+	{
+		odd := certOddities(w.Times[world.TPck])
+		for _, od := range odd {
+			sp := w.P.PCKSp
+			od.edit(&sp)
+			ql, _ := quoteUnder(w, B, &sp)
+			cases = append(cases, c02Case{"odd-foreign:leaf-" + od.name + "-under-B|pool=A", ql, pools["A"], world.MustReject, "the chain is under root B, which is not in the pool (its leaf is " + od.name + ")"})
+			cases = append(cases, c02Case{"odd-foreign:leaf-" + od.name + "-under-B|pool=nil", ql, nil, world.MustReject, "the chain is under root B; only the embedded Intel root is trusted (its leaf is " + od.name + ")"})
+			cases = append(cases, c02Case{"odd-foreign:leaf-" + od.name + "-under-B|pool=empty", ql, pools["empty"], world.MustReject, "the pool is empty (the leaf is " + od.name + ")"})
+			B3 := world.NewPKI(t, "B3", w.Epoch, A)
+			od.edit(&B3.PlatSpec)
+			B3.Rebuild()
+			qi, _ := quoteUnder(w, B3, nil)
+			cases = append(cases, c02Case{"odd-foreign:intermediate-" + od.name + "-under-B|pool=A", qi, pools["A"], world.MustReject, "the chain is under a foreign root (its intermediate is " + od.name + ")"})
+		}
+		r.Probe("foreign_chain_with_unusual_certificate")
+	}
 	// 2. one chain element replaced by its look-alike (pool = {A})
 	{
 		q := qA.Clone()
@@ -198,6 +220,38 @@ func c02Run(r *core.Run) {
 		sp3 := w.P.PCKSp
 		k3 := world.NewKey(t)
 		role("pck-named-issued-by-tcb-signer", world.Issue(sp3, k3, A.Tcb, A.TcbKey), k3, A.Tcb)
+	}
+	// 3b. a leaf that carries the PCK name and is issued by the trusted Platform CA but is not a PCK
+	// certificate: no SGX extension, another extension in its place, or an SGX extension that does not decode
+	{
+		k := world.NewKey(t)
+		mkq := func(name string, edit func(*world.CertSpec)) {
+			sp := w.P.PCKSp
+			sp.Serial = world.RandSerial(t)
+			edit(&sp)
+			leaf := world.Issue(sp, k, w.CA, w.CAKey)
+			q := qA.Clone()
+			q.Chain = world.ChainPEM(leaf, w.CA, A.Root, false)
+			q.SignQE(k)
+			add("role:pck-named-"+name, q, "A", world.MustReject, "the leaf is named like a PCK certificate but is not one ("+name+")")
+		}
+		mkq("without-sgx-extension", func(s *world.CertSpec) { s.ExtraExt = nil })
+		mkq("other-extension-in-place-of-sgx", func(s *world.CertSpec) {
+			e := s.ExtraExt[0]
+			e.Id = asn1.ObjectIdentifier{1, 3, 6, 1, 4, 1, 55555, 2}
+			s.ExtraExt = []pkix.Extension{e}
+		})
+		mkq("sgx-extension-truncated", func(s *world.CertSpec) {
+			e := s.ExtraExt[0]
+			e.Value = append([]byte(nil), e.Value[:len(e.Value)/2]...)
+			s.ExtraExt = []pkix.Extension{e}
+		})
+		mkq("sgx-extension-empty-sequence", func(s *world.CertSpec) {
+			e := s.ExtraExt[0]
+			e.Value = []byte{0x30, 0x00}
+			s.ExtraExt = []pkix.Extension{e}
+		})
+		r.Probe("pck_named_leaf_without_sgx_extension")
 	}
 	// 4. Intel's own sample quote is not trusted by a pool that lists only A
 	for _, c := range cases {
@@ -507,6 +561,6 @@ func init() {
 			return 96
 		},
 		Run:       c02Run,
-		MustProbe: []string{"foreign_chain_not_yet_valid", "lookalike_own_key_ids", "lookalike_same_key_ids", "root_of_trust_configs", "empty_config_uses_embedded_root", "intel_lookalike_root"},
+		MustProbe: []string{"foreign_chain_not_yet_valid", "lookalike_own_key_ids", "lookalike_same_key_ids", "root_of_trust_configs", "empty_config_uses_embedded_root", "intel_lookalike_root", "foreign_chain_with_unusual_certificate", "pck_named_leaf_without_sgx_extension"},
 	})
 }
